@@ -29,7 +29,7 @@ CHECKS = {
          "trusted: ref.RefMap (version arithmetic written from the property), ref value generator; open dimensions (incr versions, tombstones after rebuild) adopted",
          "reference-model monitor (RefMap oracle) over generated histories, in-process at the StorageClient boundary"),
  "C02": ("exploration",
-         "C01 histories with clean restarts at generated positions; at each restart the closed directory is reopened once per index-file subset (exhaustive 2^k when k<=6 in thorough) and every variant compared with the reference map; under check_vhash three live keys are set to their own value right after every restart (must be 'not really set': probes the value hash kept in rebuilt indexes); plus deterministic and randomized shutdown schedules: the post-rotation flush goroutine parked at its entry hook while Close() completes (directory copied at that instant), and flusher/hint-dumper loop bodies racing with Close under yield injection (plain and race builds). The server's own graceful shutdown is exercised with the real memcache.Server on loopback TCP (Main's sequence: Shutdown as the signal handler calls it, Serve returns, HStore.Close; the directory is copied when Close returns): clients write all the time, connections that are idle at the signal write again when Serve has returned or at the 1st..3rd file-system step of Close; every set acknowledged before Close returned must be served after reopening the copy.",
+         "C01 histories with clean restarts at generated positions; at each restart the closed directory is reopened once per index-file subset (exhaustive 2^k when k<=5 in thorough) and every variant compared with the reference map; under check_vhash three live keys are set to their own value right after every restart (must be 'not really set': probes the value hash kept in rebuilt indexes); plus deterministic and randomized shutdown schedules: the post-rotation flush goroutine parked at its entry hook while Close() completes (directory copied at that instant), and flusher/hint-dumper loop bodies racing with Close under yield injection (plain and race builds). The server's own graceful shutdown is exercised with the real memcache.Server on loopback TCP (Main's sequence: Shutdown as the signal handler calls it, Serve returns, HStore.Close; the directory is copied when Close returns): clients write all the time, connections that are idle at the signal write again when Serve has returned or at the 1st..3rd file-system step of Close; every set acknowledged before Close returned must be served after reopening the copy.",
          "DESIGN.md section 4 (C02)",
          "restart = fresh store instance on a copy of the directory taken when Close returns (same process, globals re-initialised by NewHStore); tombstone versions adopted after restart as the quantifier allows",
          "reference-model monitor + index-file fault enumeration + hook-controlled shutdown schedules (park/release, yield injection) + race detector"),
